@@ -1170,3 +1170,85 @@ pub fn account(rec: &mut Recorder, kind: &str, spec: &Spec, o: &Outcome) {
         rec.count(&format!("wop:{}", op.text().split(' ').next().unwrap()));
     }
 }
+
+// ------------------------------------------------------------------ shared `main` of c40 / c41
+
+/// enforce `prop`'s oracles (and the ones common to all); other properties' findings are noted
+pub fn report(rec: &mut Recorder, prop: &str, o: &Outcome) {
+    for (p, f) in &o.fails {
+        if *p == prop || *p == "all" {
+            rec.oracle_fail(f.clone());
+        } else {
+            rec.count(&format!("other-property-oracle:{p}"));
+            if rec.notes.len() < 20 {
+                rec.notes.push(format!("[{p}] {f}"));
+            }
+        }
+    }
+}
+
+pub fn replay_cases(rec: &mut Recorder, prop: &str, lines: &[String]) {
+    let mut i = 0;
+    while i < lines.len() {
+        if lines[i].starts_with("new ") {
+            let mut j = i + 1;
+            while j < lines.len() && !lines[j].starts_with("new ") && !lines[j].starts_with("mnew ") {
+                j += 1;
+            }
+            if let Some(spec) = Spec::from_lines(&lines[i..j]) {
+                rec.begin_case();
+                let sched: Vec<String> = lines[i + 1..j].iter().filter(|l| *l != "end").cloned().collect();
+                let o = run_case(rec, &spec, &mut Mode::Replay { lines: sched, pos: 0 });
+                account(rec, "replay", &spec, &o);
+                report(rec, prop, &o);
+            }
+            i = j;
+        } else {
+            i += 1;
+        }
+    }
+}
+
+/// exhaustive small-depth schedules of the fixed programs, then `cases` random ones
+pub fn drive(rec: &mut Recorder, prop: &str, focus: u8, fixed: &[(Spec, usize)], seed: u64, cases: usize, min_visible: usize) {
+    for (spec, depth) in fixed {
+        let mut dfs = Dfs::new(*depth);
+        let mut runs = 0u64;
+        loop {
+            rec.begin_case();
+            let o = run_case(rec, spec, &mut Mode::Dfs(&mut dfs));
+            account(rec, "exhaustive", spec, &o);
+            report(rec, prop, &o);
+            if o.visible >= min_visible {
+                rec.nontrivial(o.sig);
+            }
+            runs += 1;
+            if !dfs.advance() {
+                break;
+            }
+        }
+        rec.notes.push(format!(
+            "exhaustive: cap {} / {} writer ops / {} readers, all schedules to decision depth {depth}: {runs} runs",
+            spec.cap,
+            spec.wprog.len(),
+            spec.rprogs.len()
+        ));
+    }
+    let mut rng = Rng::new(seed);
+    for c in 0..cases {
+        let cfg = GenCfg { readers: rng.range(1, 3) as usize, wops: rng.range(2, 7) as usize, rops: rng.range(3, 9) as usize, focus };
+        let spec = gen_spec(&mut rng, &cfg);
+        let sticky = *rng.pick(&[0u64, 40, 70, 85, 95]);
+        let spur_pct = *rng.pick(&[0u64, 0, 0, 5]);
+        rec.begin_case();
+        let o = run_case(rec, &spec, &mut Mode::Random { rng: &mut rng, sticky, spur_pct });
+        account(rec, "random", &spec, &o);
+        report(rec, prop, &o);
+        if o.visible >= min_visible {
+            rec.nontrivial(o.sig);
+        }
+        if c < 2 {
+            rec.sample(rec.current_case_lines().join("; "));
+        }
+    }
+}
